@@ -141,4 +141,39 @@ def judge(case, im, mo):
                 if not close(a, b, 1e-9, 1e-9):
                     disagree.append('predicted flux %d of %s: %r vs model %r' % (j, name, a, float(b)))
                     break
+    # the same source fitted with remove_resolved=True: every row must still describe one model at the reported (A_V, distance)
+    rr = im.get('rr')
+    if isinstance(rr, dict) and 'exc' in rr:
+        fail.append('raised: remove_resolved=True raised %s' % rr['exc'])
+    elif isinstance(rr, dict):
+        tags.append('rr-differs=%s' % (rr['chi2'] != im['chi2']))
+        if sorted(rr['model_id']) != list(range(len(case['names']))):
+            fail.append('row: remove_resolved=True: model_id %r is not a permutation' % (rr['model_id'],))
+        else:
+            fin = [fitcase.canon_chi(x) for x in rr['chi2']]
+            vals = [x for x in fin if x not in ('HUGE', 'nan')]
+            if vals != sorted(vals) or any(a in ('HUGE', 'nan') and b not in ('HUGE', 'nan') for a, b in zip(fin, fin[1:])):
+                fail.append('row: remove_resolved=True: chi2 %r is not in non-decreasing order' % (rr['chi2'][:6],))
+            for i, mid in enumerate(rr['model_id']):
+                if rr['model_name'][i] != case['names'][mid]:
+                    fail.append('row: remove_resolved=True: row %d names %s but carries index %d' % (i, rr['model_name'][i], mid))
+                    break
+                if not math.isfinite(rr['chi2'][i]) or rr['chi2'][i] >= 1e29:
+                    continue
+                k = min(range(len(logds)), key=lambda t: abs(logds[t] - rr['sc'][i]))
+                if abs(logds[k] - rr['sc'][i]) > 1e-9:
+                    fail.append('scale: remove_resolved=True: scale %r of %s is not on the distance grid' % (rr['sc'][i], rr['model_name'][i]))
+                    break
+                d = F(ds[k])
+                bad = False
+                for j in range(len(case['wav'])):
+                    sf = _interp_clamp(case['aps'][j], case['flux'][mid][j], F(case['theta'][j]) * d * 1000) / (d * d)
+                    want = float(np.log10(float(sf))) + rr['av'][i] * float(ks[j])
+                    if abs(rr['model_fluxes'][i][j] - want) > 1e-8 * (1 + abs(want)):
+                        fail.append('flux: remove_resolved=True: predicted flux of %s in band %d is %r; interpolated flux x (1kpc/d)^2 at the reported distance, reddened by the reported A_V, gives %r'
+                                    % (rr['model_name'][i], j, rr['model_fluxes'][i][j], want))
+                        bad = True
+                        break
+                if bad:
+                    break
     return dict(disagree=disagree[:5], fail=fail[:5], nontrivial=nontrivial, tags=tags)
